@@ -406,7 +406,7 @@ type c13Manager interface {
 // ---------------------------------------------------------------------------------------------
 // group 1: specifiers x names
 
-var c13Specs = []string{"W", "W/", "W/Val1", "W/Val.*", "W/Val.*[02]", "^W/Val1$", "W/^Val1", "W/Val1$", "W/a|b", "W/(Val1)|(xb)", "X/.*"}
+var c13Specs = []string{"W", "W/", "W/Val1", "W/Val.*", "W/Val.*[02]", "^W/Val1$", "W/^Val1", "W/Val1$", "W/a|b", "W/(Val1)|(xb)", "X/.*", "W/Val1/x"}
 var c13Wallets = []string{"W", "Wx", "xW", "X"}
 var c13Names = []string{"Val1", "Val12", "Val2", "xVal1", "a", "xb"}
 
@@ -739,7 +739,7 @@ func c13StateUnits(tier string) []hx.Unit {
 						mgr = svc
 					} else {
 						svc := walletam.VerifNewService([]string{"W"}, [][]byte{[]byte("pw")}, vm, ct, c13FFE, 2)
-						svc.VerifRefreshFromWallets(ctx, []e2wtypes.Wallet{w})
+						svc.VerifMirrorRefreshAccounts(ctx, []e2wtypes.Wallet{w})
 						must(svc.VerifRefreshValidators(ctx))
 						mgr = svc
 					}
@@ -1219,7 +1219,7 @@ func c13WalletRefreshUnits(tier string) []hx.Unit {
 					failed = failed || v > 1
 					log = append(log, accOps[a]+"+"+valOps[v])
 					where := fmt.Sprintf("after wallet manager refreshes %v (accounts offered + beacon node)", log)
-					svc.VerifRefreshFromWallets(ctx, []e2wtypes.Wallet{wW})
+					svc.VerifMirrorRefreshAccounts(ctx, []e2wtypes.Wallet{wW})
 					_ = svc.VerifRefreshValidators(ctx)
 					held := svc.VerifAccounts()
 					for _, k := range keysSortedPub(held) {
@@ -1339,7 +1339,7 @@ func c13ManyAccountsUnits(tier string) []hx.Unit {
 				byIdx, err2 = svc.ValidatingAccountsForEpochByIndex(ctx, 1, allIdx)
 			} else {
 				svc := walletam.VerifNewService([]string{"W"}, [][]byte{[]byte("pw")}, vm, c13ChainTime(), c13FFE, 2)
-				svc.VerifRefreshFromWallets(ctx, []e2wtypes.Wallet{wW})
+				svc.VerifMirrorRefreshAccounts(ctx, []e2wtypes.Wallet{wW})
 				_ = svc.VerifRefreshValidators(ctx)
 				direct, err1 = svc.ValidatingAccountsForEpoch(ctx, 1)
 				byIdx, err2 = svc.ValidatingAccountsForEpochByIndex(ctx, 1, allIdx)
